@@ -7,7 +7,7 @@ use crate::types::*;
 // harness-chosen (symbolic) tag of the current instance. Instances are used strictly
 // one after another in the code under test, so "current instance" = last `new`.
 pub const MAC_CAP: usize = 384;
-pub const MAC_INST: usize = 3;
+pub const MAC_INST: usize = 5;
 
 pub fn poly_new_stub<K: ByteArray<32>>(key: &K) -> Poly1305 {
     unsafe {
